@@ -316,6 +316,30 @@ for txt, want_calls in (("{{#switch:q|a=1|{{a|s}}}}", [("a", {1: "s"})]), ("{{#s
              f"{txt!r}: calls {calls} want {want_calls}", {"page": txt}, "hook-calls")
     if txt == "{{id0|0=z}}" and out != "<z>":
         fail("core:Wtp.expand#equals-reference-selective-expansion", f"{txt!r} -> {out!r} want '<z>'", {"page": txt})
+# the flag that selects a template is the one of the LAST add_page for that title
+for flags, want in (((True, False), "{{rf|x}}"), ((False, True), "<x>"), ((True, True), "<x>"), ((False, False), "{{rf|x}}")):
+    for fl in flags:
+        ctx.add_page("Template:rf", 10, "<{{{1}}}>", need_pre_expand=fl)
+    ctx.start_page("Tt")
+    with quiet_stdout():
+        out = ctx.expand("{{rf|x}}", pre_expand=True)
+    evaluations += 1
+    if out != want:
+        fail("core:Wtp.expand#equals-reference-selective-expansion",
+             f"template added with need_pre_expand={flags[0]} and again with {flags[1]}: {{{{rf|x}}}} -> {out!r} want {want!r}",
+             {"page": "{{rf|x}}", "pre_expand": True, "need_pre_expand_history": list(flags)}, "stale-flag")
+# a real call and a look-alike defused with <nowiki/> on the same page (either order): the call is expanded, hooks fire
+# once, the look-alike stays text
+for txt in ("{{a|x}} {<nowiki/>{a|x}}", "{<nowiki/>{a|x}} {{a|x}}", "{{a|x}<nowiki/>} {{a|x}} {{a|x}}"):
+    calls = []
+    ctx.start_page("Tt")
+    with quiet_stdout():
+        out = ctx.expand(txt, template_fn=lambda n, ht: calls.append(n))
+    evaluations += 1
+    n_real = txt.count("{{a|x}}")
+    if out.count("Ax") != n_real or len(calls) != n_real or "{a|x}" not in ctx._finalize_expand(out).replace("&lbrace;", "{").replace("&rbrace;", "}").replace("&vert;", "|"):
+        fail("core:Wtp.expand#template_fn-called-once-per-expanded-call-with-final-arguments",
+             f"{txt!r} -> {out!r}, hook calls {calls}", {"page": txt}, "hook-calls")
 # selection looks the template up like a call does: first letter case-insensitive, the rest exact
 ctx.add_page("Template:LangHdr", 10, "<{{{1|}}}>", need_pre_expand=True)
 ctx.add_page("Template:En-IPA", 10, "[{{{1|}}}]")
